@@ -19,13 +19,13 @@ HB_CLIENTS = [
     ("hb-tripwire", "tripwire", False, 2, 400, 10000),
     ("hb-deferred", "deferred", False, 2, 400, 10000),
     # components built on other branches: one line each once their client exists, e.g.
-    # ("hb-lr", "lr", False, 2, 400, 10000),
+    ("hb-lr", "lr", False, 2, 400, 10000),
     # ("hb-cow", "cow", False, 2, 400, 10000),
     # ("hb-rcu", "rcu", True, 2, 400, 10000),
     ("hb-trigger", "trigger", False, 2, 400, 10000),
     ("hb-dd", "dd", False, 2, 400, 10000),
     ("hb-soh", "soh", True, 2, 400, 10000),
-    # ("hb-dobj", "dobj", True, 2, 400, 10000),
+    ("hb-dobj", "dobj", True, 2, 400, 10000),
 ]
 
 ACQ = ("acq", "ar", "sc")
